@@ -317,6 +317,53 @@ def _term_class(psi, sites, v):
     return "eq" if float(np.max(np.abs(vals - v))) <= 1e-12 else "drift"
 
 
+def terminal_site_oracle(dev):
+    """Geometric, independent classification of the mesh sites with respect to the current terminals
+    (does not use Device.terminal_info(), Device.points or Polygon.contains_points):
+    a site belongs to a terminal iff it is a BOUNDARY site of the triangulation (an end point of an edge that
+    occurs in exactly one triangle of mesh.elements) and its physical position mesh.sites * xi lies in the
+    terminal polygon.  Sites within `tol` of the polygon's outline are AMBIGUOUS (on-the-edge membership is a
+    matter of convention) and are constrained by nothing.
+    Returns (inside, outside): index arrays of the sites that must be pinned / must never be pinned."""
+    from collections import Counter
+    from matplotlib.path import Path as MplPath
+
+    mesh = dev.mesh
+    xi = float(dev.layer.coherence_length)
+    pts = np.asarray(mesh.sites, dtype=float) * xi
+    tri = np.asarray(mesh.elements)
+    cnt = Counter()
+    for a, b in ((0, 1), (1, 2), (2, 0)):
+        for i, j in zip(tri[:, a], tri[:, b]):
+            cnt[(min(i, j), max(i, j))] += 1
+    bnd = np.zeros(len(pts), dtype=bool)
+    for (i, j), c in cnt.items():
+        if c == 1:
+            bnd[i] = bnd[j] = True
+    scale = float(np.max(np.ptp(pts, axis=0)))
+    tol = 1e-6 * scale
+    inside = np.zeros(len(pts), dtype=bool)
+    ambiguous = np.zeros(len(pts), dtype=bool)
+    for term in dev.terminals:
+        poly = np.asarray(term.points, dtype=float)
+        if not np.allclose(poly[0], poly[-1]):
+            poly = np.vstack([poly, poly[:1]])
+        # distance of every site to the outline (segment by segment)
+        d = np.full(len(pts), np.inf)
+        for p, q in zip(poly[:-1], poly[1:]):
+            pq = q - p
+            L2 = float(pq @ pq)
+            t = np.clip(((pts - p) @ pq) / L2, 0.0, 1.0) if L2 > 0 else np.zeros(len(pts))
+            d = np.minimum(d, np.linalg.norm(pts - (p + t[:, None] * pq), axis=1))
+        inn = MplPath(poly).contains_points(pts)
+        near = d <= tol
+        inside |= bnd & inn & ~near
+        ambiguous |= bnd & near
+    ambiguous &= ~inside
+    outside = ~inside & ~ambiguous
+    return np.flatnonzero(inside).astype(np.int64), np.flatnonzero(outside).astype(np.int64)
+
+
 def _parse_psi(tp):
     return None if tp == "none" else (complex(tp[0], tp[1]) if tp[1] else float(tp[0]))
 
